@@ -2071,6 +2071,8 @@ func runCase(raw json.RawMessage) interface{} {
 			o = runBridgeStall(c)
 		case "bridge_startrace":
 			o = runBridgeStartRace(c)
+		case "spin_close":
+			o = runSpinClose(c)
 		case "mapping_stats":
 			o = runMappingStats(c)
 		case "bridge_hung_backend":
